@@ -105,6 +105,23 @@ def check_chain(name, start, end, month_offset):
         if as_date(c.expiry) != ref_expiry(name, y, m):
             msgs.append("chain %s lists %s expiring %s, rule says %s" % (name, c.symbol, c.expiry, ref_expiry(name, y, m)))
             break
+    # completeness: one contract per listing period (quarter end for ES/NK/Treasuries, month end for VX)
+    # whose period end lies inside [start, end], no more, no less
+    want = []
+    y, m = start.year, start.month
+    while (y, m) <= (end.year, end.month):
+        last_day = _cal.monthrange(y, m)[1]
+        pe = datetime(y, m, last_day)
+        if start <= pe <= end and (name == "VX" or m in (3, 6, 9, 12)):
+            want.append((y, m))
+        y, m = (y + 1, 1) if m == 12 else (y, m + 1)
+    got_months = []
+    for c in cs:
+        code = c.symbol[len(name)]
+        got_months.append(CODES.index(code) + 1 if code in CODES else None)
+    if len(cs) != len(want) or got_months != [mm for _, mm in want]:
+        msgs.append("chain %s %s..%s lists %d contracts with month codes %s, expected one per listing period ending in the span: %s"
+                    % (name, start.date(), end.date(), len(cs), [c.symbol for c in cs][:6], want[:6]))
     ev = chain.make_events()
     per = {}
     for e in ev:
